@@ -477,3 +477,19 @@ pub fn sk_obj_sets(tab: &[&'static str], sets: &[&[u8]]) {
     }
     set_node(0, map_node_m(&kids[..n], &ks[..n], &kms[..n]));
 }
+
+/// N1 { "in": { p, q? }, "l": [leaf, leaf] } with symbolic inner keys and leaves:
+/// root object {in: node1, l: node2}; node1 = object of one member with a symbolic key over
+/// {p, q, zz}; node2 = sequence of two leaves
+#[cfg(kani)]
+pub fn sk_n1() {
+    set_tab(&N1_TAB);
+    any_outcomes();
+    set_node(0, map_node_m(&[1, 2], &[0, 1], &[1, 2]));
+    let k = any_of(&[2, 3, 4]);
+    set_node(1, map_node_m(&[3], &[k], &[set_mask(&[2, 3, 4])]));
+    set_node(2, seq_node(&[4, 5]));
+    set_node(3, any_leaf(1));
+    set_node(4, any_leaf(1));
+    set_node(5, any_leaf(1));
+}
